@@ -15,7 +15,7 @@ def run(ctx):
     files = []
     if prop == "C09":
         tp = ctx.path("co", "events.ndjson")
-        stats = ctx.driver_json(["coalesce-events", "--out", tp, "--seed", ctx.seed, "--n", 3000 if q else 80000], timeout=3000)["stats"]
+        stats = ctx.driver_json(["coalesce-events", "--out", tp, "--seed", ctx.seed, "--n", 3000 if q else 300000], timeout=3000)["stats"]
         ctx.log("real code: %s" % stats)
         n = sum(1 for _ in open(tp))
         f, nrec = core.judge_traces(ctx, "coalesce", "CoalesceTrace", TRACE_CFG, tp, xss="256m", timeout=3000,
